@@ -5,6 +5,9 @@
    rc4 <key> <data>
    open <std> <V> <R> <P> <O> <U> <Length> <cf> <stmf> <strf> <em> <OE> <UE> <id0> <pw>
    getobj <loc> <objid> <genno> <tokens ...>
+   select <isMetadata>               decision table of decrypt for the handler of the last `open`
+   unpad <data>                      unpad_aes
+   objkey <rc4|aes128> <key> <objid> <genno>    per-object key
    spec.enc <method> <key> <objid> <genno> <iv> <data>
    spec.derive234 <R> <length> <P> <id0> <em> <paddedUser> <paddedOwner> <tail>
    spec.derive56 <R> <key> <up> <op> <uv> <uk> <ov> <ok>
@@ -193,6 +196,24 @@ def step (st : St) (line : String) : St × String :=
       let r2 := getobjSt (tablePrims st.table) h false r.2.1 loc objid genno o
       (st, showL p1 ++ " | " ++ showL p2 ++ " | " ++ showL (r2.2.2.filter Call.isStr))
     | _, _, _, _, _ => (st, "bad-op")
+  | ["select", im] =>
+    match st.handler with
+    | some h =>
+      (st, match selectMethod h (im == "1") with
+           | some m => m.name
+           | none => "none")
+    | none => (st, "bad-op")
+  | ["unpad", d] =>
+    match bytesOfHex d with
+    | some d => (st, hexOrDash (unpadAes d))
+    | none => (st, "bad-op")
+  | ["objkey", m, key, objid, genno] =>
+    match parseMethod m, bytesOfHex key, objid.toNat?, genno.toNat? with
+    | some .rc4, some key, some objid, some genno =>
+      (st, hexOrDash (objKeyRc4 (tablePrims st.table) key objid genno))
+    | some .aes128, some key, some objid, some genno =>
+      (st, hexOrDash (objKeyAes (tablePrims st.table) key objid genno))
+    | _, _, _, _ => (st, "bad-op")
   | ["spec.enc", m, key, objid, genno, iv, data] =>
     match parseMethod m, bytesOfHex key, objid.toNat?, genno.toNat?, bytesOfHex iv, bytesOfHex data with
     | some m, some key, some objid, some genno, some iv, some data =>
